@@ -288,6 +288,7 @@ func (r *Raft) onInstallSnapRequest(req *installSnapReq, c *conn) (rpcResult, er
 		r.setState(Follower)
 	}
 	r.setState(Follower)
+	r.ldr.stopRepls() // if we were leader: before this request modifies the log
 	r.setLeader(req.src)
 
 	// a delayed or duplicated request: everything in this snapshot is
